@@ -18,6 +18,13 @@ for log in sys.argv[1:]:
         meta = json.load(open(mf))
         prev = meta.setdefault("checks", {}).get(chk)
         hist = meta.setdefault("history", [])
+        if prev and prev.get("verdict") == "caught" and verdict != "caught":
+            # logs are merged file by file, not line by line in time: checks only get stronger, so a change that was
+            # caught once stays caught; the miss is kept as history
+            if not any(h["check"] == chk and h["verdict"] == verdict for h in hist):
+                hist.append({"check": chk, "verdict": verdict, "note": "before the check was strengthened"})
+            json.dump(meta, open(mf, "w"), indent=1)
+            continue
         if prev and prev.get("verdict") != verdict:
             hist.append({"check": chk, "verdict": prev.get("verdict"), "note": "before the check was strengthened"})
         meta["checks"][chk] = {"exit": {"caught": 1, "missed": 0}.get(verdict, 2), "violations": int(viol), "wall_s": float(wall), "verdict": verdict}
